@@ -1845,6 +1845,32 @@ func (oe *outEval) seedParamElems(fr *oframe) {
 	}
 }
 
+// sameParamField: a and b are the same value, or both read the same (nested) field of the same parameter of fn
+// (a parameter passed by value, or fields that fn never writes).
+func sameParamField(fn *ssa.Function, a, b ssa.Value) bool {
+	if a == b {
+		return true
+	}
+	pa, oka := fieldPathOf(fn, a)
+	pb, okb := fieldPathOf(fn, b)
+	if !oka || !okb || pa != pb {
+		return false
+	}
+	// no store into a field of that name anywhere in fn
+	for _, blk := range fn.Blocks {
+		for _, in := range blk.Instrs {
+			if st, ok := in.(*ssa.Store); ok {
+				if fa, ok := st.Addr.(*ssa.FieldAddr); ok {
+					if p2, ok := fieldPathOf(fn, fa); ok && (p2 == pa || strings.HasPrefix(pa, p2+".")) {
+						return false
+					}
+				}
+			}
+		}
+	}
+	return true
+}
+
 // firstIterationCertain: b is the header of a loop "for i := c0; i <op> k; …" with constants c0 and k
 // for which c0 <op> k holds: the body runs at least once.
 func firstIterationCertain(b *ssa.BasicBlock) bool {
@@ -1858,6 +1884,39 @@ func firstIterationCertain(b *ssa.BasicBlock) bool {
 	bo, ok := iff.Cond.(*ssa.BinOp)
 	if !ok {
 		return false
+	}
+	// range over a slice that is known not to be empty where the loop starts: i+1 < len(s) with i starting at -1,
+	// under a guard len(s) > 0 (or after "if len(s) == 0 { return }")
+	if inc, ok := bo.X.(*ssa.BinOp); ok && bo.Op == token.LSS && inc.Op == token.ADD {
+		if ph, ok := inc.X.(*ssa.Phi); ok && ph.Block() == b {
+			one, ok1 := constInt(inc.Y)
+			sl, isLen := isLenOf(bo.Y)
+			start := false
+			for i, e := range ph.Edges {
+				if !b.Dominates(b.Preds[i]) {
+					if k, ok := constInt(e); ok && k == -1 {
+						start = true
+					}
+				}
+			}
+			if ok1 && one == 1 && isLen && start {
+				for _, gd := range GuardsOf(b) {
+					gb, ok := gd.Cond.(*ssa.BinOp)
+					if !ok {
+						continue
+					}
+					gs, isL := isLenOf(gb.X)
+					k, isK := constInt(gb.Y)
+					if !isL || !isK || k != 0 || !sameParamField(b.Parent(), gs, sl) {
+						continue
+					}
+					switch {
+					case gb.Op == token.GTR && gd.Pol, gb.Op == token.NEQ && gd.Pol, gb.Op == token.EQL && !gd.Pol:
+						return true
+					}
+				}
+			}
+		}
 	}
 	phi, ok := bo.X.(*ssa.Phi)
 	k, okk := constInt(bo.Y)
